@@ -13,7 +13,7 @@ Definition rdiv (x r : Z) : Z :=
 (* exact (unbounded) value returned by the decoders at precision k *)
 Definition dec_exact (b k : Z) (l : list Z) : Z :=
   let size := enc_size b k in let krem := enc_krem b k in
-  lval b (firstn (size - 1) l) * 2 ^ (b - krem) + rdiv (nthZ l (size - 1)) krem.
+  e_lval b (firstn (size - 1) l) * 2 ^ (b - krem) + rdiv (nthZ l (size - 1)) krem.
 
 Lemma efold_ext {S T : Type} (f g : S -> T -> S) (l : list T) (s0 : S) :
   (forall s j, In j l -> f s j = g s j) -> fold_left f l s0 = fold_left g l s0.
@@ -39,11 +39,11 @@ Qed.
 
 (* the plain Horner loop of the decoders *)
 Lemma horner_fold (w b : Z) (l : list Z) (m : nat) : 1 <= w -> (m < length l)%nat -> in_range w (nthZ l 0) ->
-  fold_left (fun y i => wadd w (shl w y b) (nthZ l i)) (seq 1 m) (nthZ l 0) = wrap w (lval b (firstn (S m) l)).
+  fold_left (fun y i => wadd w (shl w y b) (nthZ l i)) (seq 1 m) (nthZ l 0) = wrap w (e_lval b (firstn (S m) l)).
 Proof.
   intros Hw Hm H0. induction m as [|m IH].
   - cbn [seq fold_left]. destruct l as [|x t]; [cbn in Hm; lia|].
-    cbn [firstn]. unfold lval. cbn [fold_left nthZ nth]. rewrite Z.mul_0_l, Z.add_0_l.
+    cbn [firstn]. unfold e_lval. cbn [fold_left nthZ nth]. rewrite Z.mul_0_l, Z.add_0_l.
     symmetry. apply wrap_id; auto.
   - rewrite seq_S, fold_left_app. cbn [fold_left]. rewrite IH by lia.
     replace (1 + m)%nat with (S m) by lia.
@@ -63,7 +63,7 @@ Proof.
 Qed.
 
 Lemma div_round_pow2 (w x r : Z) : 64 <= w -> 1 <= r <= 62 -> in_range 64 x ->
-  div_round w x (shl w 1 r) = rdiv x r /\ in_range 64 (rdiv x r).
+  e_div_round w x (shl w 1 r) = rdiv x r /\ in_range 64 (rdiv x r).
 Proof.
   intros Hw Hr [Hx1 Hx2].
   destruct (rem_facts x r ltac:(lia)) as (Eq & Hm & Hs).
@@ -82,7 +82,7 @@ Proof.
     unfold in_range. change (2 ^ (64 - 1)) with (2 ^ 63).
     destruct (2 * Z.abs m >=? 2 ^ r); lia. }
   split; [|exact Hrd].
-  unfold div_round, rdiv. rewrite Es. fold q m. cbv zeta.
+  unfold e_div_round, rdiv. rewrite Es. fold q m. cbv zeta.
   destruct (Z.eqb_spec r 0); [lia|].
   assert (Ea : wabs w m = Z.abs m).
   { unfold wabs. apply wrap_id; [lia|]. unfold in_range. lia. }
@@ -141,7 +141,7 @@ Proof.
     rewrite Ekm in *.
     assert (Ek : krem = b - k) by (rewrite Ekrem; apply Z.mod_small; lia).
     assert (Es : size = 1%nat) by nia.
-    rewrite Es. cbn [Nat.sub firstn]. unfold lval at 1. cbn [fold_left]. rewrite Z.mul_0_l, Z.add_0_l.
+    rewrite Es. cbn [Nat.sub firstn]. unfold e_lval at 1. cbn [fold_left]. rewrite Z.mul_0_l, Z.add_0_l.
     destruct (div_round_pow2 w (nthZ l 0) (b - k) Hw ltac:(lia) (Hnth 0%nat)) as [E Hrg].
     rewrite E, Ek. symmetry. apply wrap_id; [lia|]. apply in_range_64_w. exact Hrg.
   - destruct (Z.eq_dec (k mod b) 0) as [E0|E0].
@@ -178,7 +178,7 @@ End D.
 
 (* decode_coeff_i64 computes the same as decode_vec_i64 *)
 Theorem dec_coeff_vec (b k : Z) (l : list Z) : 1 <= b <= 62 -> 1 <= k -> (enc_size b k <= length l)%nat ->
-  Forall (in_range 64) l -> dec_coeff b k l = dec_vec 64 b k l.
+  Forall (in_range 64) l -> dec_coeff_i64 b k l = dec_vec 64 b k l.
 Proof.
   intros Hb Hk Hlen Hl.
   destruct (enc_params b k ltac:(lia) Hk) as (Esz & Hr & Hs1).
@@ -186,7 +186,7 @@ Proof.
   { intros i. unfold nthZ. destruct (Nat.lt_ge_cases i (length l)) as [Hi|Hi].
     - rewrite Forall_forall in Hl. apply Hl. apply nth_In. exact Hi.
     - rewrite nth_overflow by exact Hi. unfold in_range. cbn. lia. }
-  unfold dec_coeff, dec_vec. cbv zeta.
+  unfold dec_coeff_i64, dec_vec. cbv zeta.
   set (size := enc_size b k) in *.
   pose proof (Z.mod_pos_bound k b ltac:(lia)) as Hmb.
   replace size with (S (size - 1)) at 1 by lia.
